@@ -371,7 +371,7 @@ def run_pair(item):
 
 EXTRA_P = ("allow", "ignore", "forbid")
 EXTRA_C = ("inherit", "allow", "ignore", "forbid")
-NEW_FIELD = ("none", "ann_opt", "ann_req", "acf", "ld", "ld_override")
+NEW_FIELD = ("none", "ann_opt", "ann_req", "acf", "ld", "ld_override", "bare_default")
 
 
 def extra_items():
@@ -402,7 +402,8 @@ def _extra_classes(item):
         fields[g] = Optional[Int]
     elif item["new"] == "ann_req":
         fields[g] = Int
-    C = G.make_class(e, fields, base=base, extra=None if item["ce"] == "inherit" else item["ce"], prefix="XC")
+    defaults = {g: 7} if item["new"] == "bare_default" else None  # new field by plain assignment, no annotation
+    C = G.make_class(e, fields, base=base, defaults=defaults, extra=None if item["ce"] == "inherit" else item["ce"], prefix="XC")
     if item["new"] == "acf":
         C = G.add_const_fields({"ckind": "k" + e.n.a})(C)
     elif item["new"] == "ld":
@@ -415,7 +416,7 @@ def _extra_classes(item):
 def _extra_inputs(item):
     e = _E
     f, g = e.n.f, e.n.f2
-    gvals = [G.OMIT] if item["new"] not in ("ann_opt", "ann_req") else [G.OMIT, 1, None]
+    gvals = [G.OMIT] if item["new"] not in ("ann_opt", "ann_req", "bare_default") else [G.OMIT, 1, None]
     for v in (0, G.OMIT):
         for gv in gvals:
             for x in (G.OMIT, 1, e.n.a, {e.n.a: [1]}):
@@ -454,6 +455,82 @@ def run_extra(item):
                     "sig": {"part": "extra-policy", "parent_extra": item["pe"], "child_extra": item["ce"], "new_field": item["new"], "parent_consts": item["pconst"]},
                     "input": {"kind": "extra", "item": item, "assign": assign, "seed": e.n.seed},
                     "what": f"parent extra={item['pe']}, child extra={item['ce']}, new field via {item['new']} (chain {item['chain']}) passes the plugin check, but " + what,
+                }
+            )
+            break
+    return res
+
+
+# ------------------------------------------------------------------------------------------------ same-name types
+
+
+def _code_type(n):
+    """Type factory: every product has the same module-qualified name (and str()), but accepts strings up to n chars."""
+
+    class Code(str):
+        maxlen = n
+
+        @classmethod
+        def __get_validators__(cls):
+            yield cls.validate
+
+        @classmethod
+        def validate(cls, v):
+            if not isinstance(v, str) or len(v) > cls.maxlen:
+                raise ValueError(f"at most {cls.maxlen} characters")
+            return cls(v)
+
+        @classmethod
+        def __modify_schema__(cls, field_schema):
+            field_schema.update(type="string", maxLength=cls.maxlen)
+
+    return Code
+
+
+SAMENAME_SHAPES = ("T", "Optional[T]", "List[T]", "Optional[List[T]]", "Dict[str,T]")
+
+
+def run_samename(item):
+    """Parent field of a factory type, child overrides it (undeclared) with a WIDER product of the same factory."""
+    import typing
+
+    e = _E
+    _housekeeping()
+    f = e.n.f
+    shape, np_, nc = item["shape"], item["np"], item["nc"]
+    res = {"outcome": None, "programs": 2, "evals": 0, "valid": 0, "viol": [], "sample": None}
+
+    def hint(T):
+        return {"T": T, "Optional[T]": typing.Optional[T], "List[T]": typing.List[T], "Optional[List[T]]": typing.Optional[typing.List[T]], "Dict[str,T]": typing.Dict[str, T]}[shape]
+
+    def wrap(v):
+        return {"T": v, "Optional[T]": v, "List[T]": [v], "Optional[List[T]]": [v], "Dict[str,T]": {"k": v}}[shape]
+
+    try:
+        P = G.make_class(e, {f: hint(_code_type(np_))}, prefix="SP")
+        if not check_ok(P):
+            res["outcome"] = "parent-refused"
+            return res
+        C = G.make_class(e, {f: hint(_code_type(nc))}, base=P, prefix="SC")
+    except Exception:
+        res["outcome"] = "refused-at-definition"
+        return res
+    if not check_ok(C):
+        res["outcome"] = "refused"
+        return res
+    res["outcome"] = "accepted"
+    for L in sorted({0, 1, np_, np_ + 1, nc, nc + 1}):
+        res["evals"] += 1
+        st, w = _witness(P, C, {f: wrap("A" * L)})
+        if st in ("ok", "witness"):
+            res["valid"] += 1
+        if st == "witness":
+            cause, what = w
+            res["viol"].append(
+                {
+                    "sig": dict({"part": "override-soundness", "variant": "same-name-type", "shape": shape}, **cause),
+                    "input": {"kind": "samename", "item": item, "seed": e.n.seed},
+                    "what": f"field type {shape} with T = product of a type factory (all products are called {_code_type(1).__module__}.{_code_type(1).__qualname__}); parent up to {np_} chars, child up to {nc} chars, no override declared, plugin check passes, but " + what,
                 }
             )
             break
@@ -540,6 +617,16 @@ def run(tier, seed):
             if r["sample"] and len(samples) < 320 and it["new"] != "none":
                 samples.append(r["sample"])
         cov["extra_policy"] = {"programs": len(xitems), "outcomes": xo, "inputs": xevals, "valid_child_instances": xvalid, "wall_s": round(time.time() - t1, 1)}
+        # ---------------- Part B: products of one type factory (same name, different acceptance)
+        sitems = [{"shape": sh, "np": a, "nc": b} for sh in SAMENAME_SHAPES for a in (1, 3) for b in (1, 3, 6)]
+        so = {}
+        for it, r in zip(sitems, pool.map("run_samename", sitems, chunk=4, item_deadline=60)):
+            if r == parallel.HANG:
+                hangs += 1
+                continue
+            so[r["outcome"]] = so.get(r["outcome"], 0) + 1
+            viols += r["viol"]
+        cov["same_name_types"] = {"programs": len(sitems), "outcomes": so}
         # ---------------- Part A: generated chains
         t1 = time.time()
         d2 = G.enumerate_types(2)
@@ -614,7 +701,7 @@ def run(tier, seed):
             "child's nested subclass widens an inner field) and 'mm' (an intermediate @make_mandatory class, child re-declares the field as T / Optional[T]) over "
             + ("all atom pairs" if q else "all pairs of depth<=2 types with core unions")
             + ". Extra policy: parent extra x child extra(inherit|allow|ignore|forbid) x new field via annotation(optional|required) | "
-            "add_const_fields | @ld new | @ld override x chain length 1|2 x parent constants none|ld. Part A: 3-level generated chains "
+            "add_const_fields | @ld new | @ld override | plain assignment without annotation x chain length 1|2 x parent constants none|ld. Same-name types: parent and child field typed with two products of one type factory (identical module-qualified name, different maximum length) in 5 shapes. Part A: 3-level generated chains "
             "(grandparent f: T with constants, parent + optional field, child + optional field and constant override; and Optional[T] parents with "
             "@make_mandatory children) over all depth<=2 types x the field corpus; installed schemas: minimal + all 1-field deviations (full corpora) + "
             "2-field deviations (reduced corpora), each parsed by every ancestor class and every schemas.parent_path plugin. "
@@ -643,6 +730,9 @@ def replay(data):
     inp = data["input"]
     worker_init(seed=inp.get("seed", 0))
     kind = inp["kind"]
+    if kind == "samename":
+        r = run_samename(inp["item"])
+        return r["viol"][0] if r["viol"] else None
     if kind == "pair":
         item = inp["item"]
         if inp.get("assign") is None:
